@@ -603,7 +603,7 @@ impl Check for TCheck {
         )
     }
     fn rule(&self) -> String {
-        self.rule.to_string()
+        format!("{} | program generator: ids are small integers, random bits, or UUID / ULID pairs with equal bits; a matcher's taker id is sometimes the id of an order of the program; in a third of the runs the driver keeps the Arcs returned for the pre-loaded orders alive to the end", self.rule)
     }
     fn assumptions(&self) -> Vec<String> {
         vec![
